@@ -152,7 +152,9 @@ Fixpoint cbor_dec (fuel : nat) (s : bytes) : dres :=
       end
   end.
 
-Definition cbor_loads (s : bytes) : dres := cbor_dec (S (length s)) s.
+(* nesting beyond max_depth is outside the modelled subset (cbor2 recurses on the C stack / CPython's recursion limit there) *)
+Definition max_depth : nat := 256.
+Definition cbor_loads (s : bytes) : dres := cbor_dec (Nat.min (S (length s)) max_depth) s.
 
 (* helpers.parse_cbor / encode_cbor *)
 Definition parse_cbor (s : bytes) : res cbor :=
